@@ -170,6 +170,69 @@ theorem C06_dedup_first (seen : List String) (b : String) (bs : List String) (h 
 /-- the de-duplication can itself collide: `X`, `X`, `X_1` → `X`, `X_1`, `X_1` -/
 theorem C06_dedup_can_collide : dedupNames [] ["X", "X", "X_1"] = ["X", "X_1", "X_1"] := by decide
 
+/-- the members that get an offset assertion: named data members with a known offset -/
+def asserted : FieldDesc → Bool
+  | .data true (some _) => true
+  | _ => false
+
+/-- **Exactly one offset assertion per named member**: the number of offset assertions is the
+number of named non-bit-field members with a known offset — none is asserted twice, none for a
+bit-field unit or an anonymous member (with `offsetAsserts_sound`/`mem_offsetAsserts`: a bijection) -/
+theorem C06_offset_count (fs : List FieldDesc) (base : Nat) :
+    (offsetAsserts base fs).length = (fs.filter asserted).length := by
+  induction fs generalizing base with
+  | nil => rfl
+  | cons f fs ih =>
+    cases f with
+    | unit => simpa [offsetAsserts, asserted] using ih (base + 1)
+    | data named o =>
+      cases named <;> cases o <;> simp [offsetAsserts, asserted, List.filter_cons, ih (base + 1)]
+
+/-- every offset assertion carries an index at or after `base`: indices are those of `fields()` -/
+theorem offsetAsserts_idx_ge (fs : List FieldDesc) (base idx n : Nat)
+    (h : Assert.offset idx n ∈ offsetAsserts base fs) : base ≤ idx := by
+  obtain ⟨i, off, e, -⟩ := offsetAsserts_sound fs base _ h
+  injection e with e1 _; omega
+
+/-- offset assertions never contain a size or an alignment assertion -/
+theorem offsetAsserts_only_offsets (fs : List FieldDesc) (base : Nat) (a : Assert)
+    (h : a ∈ offsetAsserts base fs) : ∃ idx n, a = .offset idx n := by
+  obtain ⟨i, off, e, -⟩ := offsetAsserts_sound fs base a h
+  exact ⟨_, _, e⟩
+
+/-- **Shape of the block**: exactly one size assertion, exactly one alignment assertion, both first,
+and `2 + #named members` assertions in all (an opaque record: exactly the two) -/
+theorem C06_block_shape (o : Opts) (c : CompDesc) (it : AssertItem) (h : compAsserts o c = some it) :
+    ∃ size align, c.layout = some (size, align) ∧
+      it.asserts = .size size :: .align align :: (if c.isOpaque then [] else offsetAsserts 0 c.fields) ∧
+      it.asserts.length = 2 + (if c.isOpaque then 0 else (c.fields.filter asserted).length) := by
+  unfold compAsserts at h
+  split at h; · cases h
+  split at h; · cases h
+  split at h; · cases h
+  cases hl : c.layout with
+  | none => simp [hl] at h
+  | some sa =>
+    obtain ⟨size, align⟩ := sa
+    simp only [hl, Option.some.injEq] at h
+    subst h
+    refine ⟨size, align, rfl, rfl, ?_⟩
+    cases c.isOpaque <;> simp [C06_offset_count]; omega
+
+/-- a record whose members are all bit-field units, anonymous, or without known offset gets the
+size and alignment assertions only -/
+theorem C06_no_named_members (o : Opts) (c : CompDesc) (it : AssertItem) (h : compAsserts o c = some it)
+    (hn : ∀ f ∈ c.fields, asserted f = false) : it.asserts.length = 2 := by
+  obtain ⟨_, _, _, _, hlen⟩ := C06_block_shape o c it h
+  have : c.fields.filter asserted = [] := List.filter_eq_nil_iff.2 (fun f hf => by simp [hn f hf])
+  rw [hlen, this]; cases c.isOpaque <;> rfl
+
+/-- the name list keeps its length: every instantiation assertion keeps a (possibly suffixed) name -/
+theorem C06_dedup_length (seen bs : List String) : (dedupNames seen bs).length = bs.length := by
+  induction bs generalizing seen with
+  | nil => rfl
+  | cons b bs ih => simp [dedupNames, ih]
+
 /-- non-vacuity: a record with a bit-field unit, an anonymous member without offset and two named members -/
 example : compAsserts { layoutTests := true, offsetOf := true }
     { layout := some (24, 8), fields := [.unit, .data true (some 64), .data true none, .data true (some 128)] } =
